@@ -173,3 +173,20 @@ def virtual_env():
             lg.removeHandler(col)
             lg.propagate = prop
             lg.setLevel(lvl)
+
+
+@contextlib.contextmanager
+def private_plain_loop():
+    """For plain (blocking-mode, no loop running) cases: futures that streamz creates there (e.g. the Condition of a
+    zip whose buffer exceeds maxsize) attach to "the current event loop" of the thread, which asyncio creates on
+    demand and which never runs -- their callbacks would pile up in it from case to case and keep every recorded log
+    alive.  Give each case its own such loop and close it afterwards."""
+    loop = asyncio.new_event_loop()
+    asyncio.set_event_loop(loop)
+    try:
+        yield loop
+    finally:
+        try:
+            loop.close()
+        finally:
+            asyncio.set_event_loop_policy(None)
